@@ -428,6 +428,12 @@ package server
 //@   ghost at entry: ghost.pauseApplied := false
 //@   ghost after call Pause: ghost.pauseApplied := true
 //@   ensures [paused-reapplied] result == nil && old(protoPartition.Paused) ==> ghost.pauseApplied
+//@   call SetLeader requires [leader-from-metadata] arg1 == old(protoPartition.Leader) && arg2 == old(protoPartition.LeaderEpoch)
+//@ func (*partition).GetLeader serves C06
+//@   returns (leader, epoch)
+//@   requires p != nil
+//@   modifies nothing
+//@   ensures leader == p.Partition.Leader && epoch == p.Partition.LeaderEpoch
 
 // ---------------------------------------------------------------------------------------------
 // Activity stream (property C18): events in commit order, at least once, id = Raft index
